@@ -103,8 +103,8 @@ def check_c08(case, codes, decs):
                 return 'symbol %d has no Structured Append header' % i
             if d['sa'] != (i, n - 1, parity):
                 return 'symbol %d header %r, expected (%d, %d, parity %d)' % (i, d['sa'], i, n - 1, parity)
-        elif d['sa'] is not None:
-            return 'single symbol with a Structured Append header'
+        elif d['sa'] is not None and d['sa'] != (0, 0, parity):
+            return 'single symbol with an inconsistent Structured Append header %r' % (d['sa'],)
         got += b''.join(s['bytes'] for s in d['segments'])
     if got != want:
         k = next((j for j in range(min(len(got), len(want))) if got[j] != want[j]), min(len(got), len(want)))
